@@ -348,7 +348,13 @@ def run(ctx):
             t = axes.transData
             r = attempt(lambda: ems.make_poly_collection('scalar', transform=t))
             ctx.count('override:transform')
-            if r[0] != 'ok' or r[1].get_transform() is not t:
+            def transform_of(artist):
+                # (an artist left with a coordinate system instead of the transform given, and no axes, cannot resolve it)
+                try:
+                    return artist.get_transform()
+                except Exception:
+                    return None
+            if r[0] != 'ok' or transform_of(r[1]) is not t:
                 ctx.report('property', 'user supplied transform not used by make_poly_collection', case)
             r = attempt(lambda: ems.make_quiver(axes, transform=t))
             # (matplotlib's Quiver keeps the transform of its positions in .transform)
@@ -390,6 +396,15 @@ def run(ctx):
                     break
         if badq:
             ctx.report('property', badq, case)
+            continue
+        # vector components with a leftover non-spatial dimension are refused too (given by name or as arrays)
+        with warnings.catch_warnings():
+            warnings.simplefilter('ignore')
+            ds['u_t'], ds['v_t'] = ds['u'].expand_dims(record=3), ds['v'].expand_dims(record=3)
+            r = attempt(lambda: ems.make_quiver(axes, 'u_t', 'v_t') if uv_how == 'name' else ems.make_quiver(axes, ds['u_t'], ds['v_t']))
+        ctx.count('quiver:leftover_dimension')
+        if r[0] == 'ok':
+            ctx.report('property', 'vector components with a leftover non-spatial dimension were drawn instead of being refused', case)
             continue
         # ---- the figure-level helpers build the same artists: plot_on_figure for one field, animate_on_figure for a series
         if n % 2 == 0:
